@@ -201,6 +201,15 @@ def run_cell(cell, twin=False):
                         res['witness_fail'].append({'path': p['decisions'], 'err': err,
                                                     'failures': cenv.failures[:3],
                                                     'vals': {k: _sf(v) for k, v in list(vals.items())[:40]}})
+                        # the inputs are the solver's model of this path condition and the clause fails on the
+                        # REAL library: that is a replayed counterexample, whether or not the symbolic obligation
+                        # of the same clause was decided within its time limit
+                        nm0 = cenv.failures[0][0] if cenv.failures else 'unexpected-exception'
+                        res['violations'].append({
+                            'cell': cell.name, 'obligation': nm0, 'path': p['decisions'], 'vals': _vals_json(vals),
+                            'func': cell.func, 'params': cell.params, 'conc_rtol': cell.conc_rtol, 'domain': cell.domain,
+                            'concrete_failures': [list(f) for f in cenv.failures[:5]], 'concrete_error': err,
+                            'found_by': 'path witness (solver model of the path condition) failing on the real library'})
                 else:
                     res['witness_skipped'] += 1
         if len(res['samples']) < 3 and r.kind in ('return', 'raise', 'event'):
@@ -232,11 +241,15 @@ def _replay(cell, res, obname, vals, p, tb=None):
         # this path also fails on generic inputs.  Any failure demonstrated on the real library is a
         # real violation, whichever input shows it, so this can only turn a harness error into a
         # confirmed violation, never create a false alarm.
-        for seed in (1, 2, 3):
+        tried = 0
+        for seed in range(1, 61):
+            if tried >= 3:
+                break
             gen = {k: v for k, v in vals.items() if isinstance(v, str) or (isinstance(v, int) and not isinstance(v, bool))}   # keep option values
             c2, e2 = _concrete(cell, gen, seed=seed)
             if c2.assume_failed:
-                continue
+                continue          # the random point is outside the harness assumptions: draw another one
+            tried += 1
             if e2 is not None or c2.failures:
                 cenv, err = c2, e2
                 vals = dict(c2.used)
